@@ -252,52 +252,6 @@ Definition ingest (fok : string -> bool) (tab : deftab) (dropw : bool) (lines : 
 
 Definition readlines (text : string) : list string := let (h, t) := rl text in cons_ne h t.
 
-(* ---- specification: the independent fixed-column read --------------------- *)
-
-(* A coordinate record is a line whose columns 1-6 name ATOM or HETATM; its
-   identity is (chain, resSeq, iCode, name) read from columns 22, 23-26, 27,
-   13-16.  The first model is everything in front of the second MODEL record.
-   cols_read returns the selected lines: first model, first listed per
-   identity. *)
-Definition is_coord (l : string) : bool := mem_str (rec_name l) ["ATOM"; "HETATM"].
-Definition is_model (l : string) : bool := rec_name l =? "MODEL".
-
-Fixpoint first_model (seen : bool) (lines : list string) : list string :=
-  match lines with
-  | [] => []
-  | l :: r =>
-      if is_model l then (if seen then [] else l :: first_model true r)
-      else l :: first_model seen r
-  end.
-
-Definition ident := (string * option Z * string * string)%type.
-
-Definition line_ident (l : string) : ident :=
-  (strip (slice 21 22 l), py_int (slice 22 26 l), strip (slice 26 27 l), strip (slice 12 16 l)).
-
-Definition ident_eqb (a b : ident) : bool :=
-  let '(c1, n1, i1, m1) := a in
-  let '(c2, n2, i2, m2) := b in
-  (c1 =? c2) && (i1 =? i2) && (m1 =? m2) &&
-  match n1, n2 with
-  | Some x, Some y => (x =? y)%Z
-  | None, None => true
-  | _, _ => false
-  end.
-
-Fixpoint first_listed (seen : list ident) (ls : list string) : list string :=
-  match ls with
-  | [] => []
-  | l :: r =>
-      if existsb (ident_eqb (line_ident l)) seen then first_listed seen r
-      else l :: first_listed (line_ident l :: seen) r
-  end.
-
-Definition cols_read (lines : list string) : list string :=
-  first_listed [] (filter is_coord (first_model false lines)).
-
-Definition is_water_line (l : string) : bool := mem_str (strip (slice 17 20 l)) water_names.
-
 (* ---- printing for the correspondence harness ------------------------------ *)
 
 Definition show_bool (b : bool) : string := if b then "HETATM" else "ATOM".
